@@ -7,9 +7,10 @@ open BioCantor.Spec.Validate (Out)
 
 /-! ### initialize_location -/
 
-/-- as coded: equal non-zero lengths, every start ≤ end; a start is compared with 0 only in the one-block case -/
+/-- as coded: equal non-zero lengths, every block `0 ≤ start ≤ end` (one block: SingleInterval; more: CompoundInterval,
+    which refuses negative starts since 0fcdb58) -/
 def acceptedInit (starts ends : List Int) : Prop :=
-  lensOk starts ends ∧ (∀ b ∈ starts.zip ends, b.1 ≤ b.2) ∧ (starts.length = 1 → ∀ b ∈ starts.zip ends, 0 ≤ b.1)
+  lensOk starts ends ∧ (∀ b ∈ starts.zip ends, 0 ≤ b.1 ∧ b.1 ≤ b.2)
 
 theorem initLoc_cases (starts ends : List Int) (st : Strand) :
     (acceptedInit starts ends → ∃ bs, initLoc starts ends st = .ok bs) ∧
@@ -23,19 +24,18 @@ theorem initLoc_cases (starts ends : List Int) (st : Strand) :
       simp [initLoc, mkCompoundRaw, raise]
     · -- one block
       by_cases h : 0 ≤ s ∧ s ≤ e
-      · refine ⟨fun _ => ⟨[(s, e)], ?_⟩, fun hn => absurd ⟨⟨rfl, by simp⟩, by simpa using h.2, fun _ => by simpa using h.1⟩ hn⟩
+      · refine ⟨fun _ => ⟨[(s, e)], ?_⟩, fun hn => absurd ⟨⟨rfl, by simp⟩, by simpa using h⟩ hn⟩
         simp [initLoc, mkSingle, h, liftR, bind, Except.bind, pure, Except.pure]
-      · refine ⟨fun ha => absurd ⟨by simpa using ha.2.2 rfl, by simpa using ha.2.1⟩ h, fun _ => ⟨.InvalidPosition, ?_⟩⟩
+      · refine ⟨fun ha => absurd (by simpa using ha.2) h, fun _ => ⟨.InvalidPosition, ?_⟩⟩
         simp [initLoc, mkSingle, h, liftR, bind, Except.bind, throw, throwThe, MonadExceptOf.throw]
     · -- two or more blocks
       have hinit : initLoc (s :: s2 :: t) (e :: e2 :: u) st = mkCompoundRaw (s :: s2 :: t) (e :: e2 :: u) st none := by
         simp [initLoc, hlen]
       rw [hinit]
       obtain ⟨h1, h2⟩ := mkCompoundRaw_eq (s :: s2 :: t) (e :: e2 :: u) st none
-      have hone : ¬ ((s :: s2 :: t).length = 1) := by simp
       constructor
-      · intro ha; exact ⟨_, h1 ⟨ha.1, ha.2.1, trivial⟩⟩
-      · intro hn; exact h2 (fun hacc => hn ⟨hacc.1, hacc.2.1, fun h => absurd h hone⟩)
+      · intro ha; exact ⟨_, h1 ⟨ha.1, ha.2, trivial⟩⟩
+      · intro hn; exact h2 (fun hacc => hn ⟨hacc.1, hacc.2.1⟩)
   · refine ⟨fun h => absurd h.1.1 hlen, fun _ => ⟨.Validation, ?_⟩⟩
     simp [initLoc, hlen, raise]
 
@@ -134,13 +134,10 @@ theorem totalLen_nonneg (l : List IBlk) (h : ∀ b ∈ l, b.1 ≤ b.2) : 0 ≤ S
       have := ih (fun x hx => h x (List.mem_cons_of_mem _ hx))
       simp only [Spec.Validate.totalLen]; omega
 
-theorem validBlocks_iff (starts ends : List Int) (hnn : ∀ b ∈ starts.zip ends, 0 ≤ b.1) :
+theorem validBlocks_iff (starts ends : List Int) :
     Spec.Validate.validBlocks starts ends = true ↔ acceptedInit starts ends := by
   unfold Spec.Validate.validBlocks acceptedInit lensOk Spec.Validate.blockOk
-  simp only [Bool.and_eq_true, beq_iff_eq, decide_eq_true_eq, List.all_eq_true]
-  constructor
-  · intro h; exact ⟨⟨h.1.1, h.1.2⟩, fun b hb => (h.2 b hb).2, fun _ => hnn⟩
-  · intro h; exact ⟨⟨h.1.1, h.1.2⟩, fun b hb => ⟨hnn b hb, h.2.1 b hb⟩⟩
+  simp only [Bool.and_eq_true, beq_iff_eq, decide_eq_true_eq, List.all_eq_true, and_assoc]
 
 theorem mixed_cons (f0 : FP) (rest : List FP) :
     ((rest.map fpv).all (fun g => g.1 == (fpv f0).1)) = !mixedFP (f0 :: rest) := by
@@ -148,7 +145,7 @@ theorem mixed_cons (f0 : FP) (rest : List FP) :
   rw [Bool.eq_iff_iff]
   simp [List.all_eq_true, List.any_eq_true, fpv_fst]
 
-theorem validCDS_iff (starts ends : List Int) (fps : List FP) (hnn : ∀ b ∈ starts.zip ends, 0 ≤ b.1) :
+theorem validCDS_iff (starts ends : List Int) (fps : List FP) :
     Spec.Validate.validCDS starts ends (fps.map fpv) = true ↔ acceptedCDS starts ends fps := by
   have key : Spec.Validate.validCDS starts ends (fps.map fpv) =
       (Spec.Validate.validBlocks starts ends && (fps.map fpv).length == starts.length &&
@@ -161,11 +158,11 @@ theorem validCDS_iff (starts ends : List Int) (fps : List FP) (hnn : ∀ b ∈ s
   rw [key]
   unfold acceptedCDS
   simp only [Bool.and_eq_true, beq_iff_eq, decide_eq_true_eq, List.length_map, Bool.not_eq_true']
-  rw [validBlocks_iff starts ends hnn, sumLens_eq_totalLen]
+  rw [validBlocks_iff starts ends, sumLens_eq_totalLen]
   constructor
   · intro h; exact ⟨h.1.1.1, h.1.1.2, by omega, h.2⟩
   · intro h
-    have := totalLen_nonneg (starts.zip ends) h.1.2.1
+    have := totalLen_nonneg (starts.zip ends) (fun b hb => (h.1.2 b hb).2)
     exact ⟨⟨⟨h.1, h.2.1⟩, by have := h.2.2.1; omega⟩, h.2.2.2⟩
 
 /-- first start = smallest start, last end = largest end, for an ascending valid pair of lists -/
@@ -194,16 +191,16 @@ theorem bounds_ascending (starts ends : List Int) (s0 eN : Int) (hlen : starts.l
       · rw [minStartI_ascending a l hasc hv, hh]
       · rw [maxEndI_ascending (a :: l) (sN, eN) hl hasc hv]
 
-/-- full statement (fails: F-C19g, F-C19i): for ALL `starts ends st fps`.
-    Proved for non-negative starts given in ascending order. -/
+/-- full statement (fails: F-C19i): for ALL `starts ends st fps`.
+    Proved for lists given in ascending order (negative starts are refused since 0fcdb58). -/
 theorem mkCDS_spec_partial (starts ends : List Int) (st : Strand) (fps : List FP)
-    (hnn : ∀ b ∈ starts.zip ends, 0 ≤ b.1) (hasc : Spec.Validate.ascending (starts.zip ends) = true) :
+    (hasc : Spec.Validate.ascending (starts.zip ends) = true) :
     Spec.Validate.okMkCDS starts ends (fps.map fpv) (outOf projCDS (mkCDS starts ends st fps)) = true := by
-  have hv := validCDS_iff starts ends fps hnn
+  have hv := validCDS_iff starts ends fps
   obtain ⟨h1, h2⟩ := mkCDS_cases starts ends st fps
   by_cases ha : acceptedCDS starts ends fps
   · obtain ⟨s0, eN, hs, he, hb⟩ := h1 ha
-    obtain ⟨hmin, hmax⟩ := bounds_ascending starts ends s0 eN ha.1.1.1 hs he ha.1.2.1 hasc
+    obtain ⟨hmin, hmax⟩ := bounds_ascending starts ends s0 eN ha.1.1.1 hs he (fun b hb => (ha.1.2 b hb).2) hasc
     rw [hb]
     have hfr : List.map CDSFrame.value (List.map FP.toFrame fps) = List.map Spec.Validate.frameOf (List.map fpv fps) := by
       simp only [List.map_map]
